@@ -211,11 +211,11 @@ for _sp in _LRI + _LRU:
 # the second item type.  `__init__` (`**kw`, `itertools.count()`) is not translated.
 BPQ = {
     'name': 'BasePriorityQueue', 'lean_name': 'BPQ', 'tparams': ['κ', 'ν', 'β'], 'deceq': ['κ'], 'inhabited': ['ν'],
-    'heap': {'field': 'heap', 'key': 'κ', 'val': 'ν'},
+    'heap': {'field': 'heap', 'key': 'κ', 'val': 'ν', 'int_slots': True},
     'backend': {'attr': '_pq', 'type': 'β', 'push': '_push_entry', 'pop': '_pop_entry'},
     'state': {'heap': 'Heap', '_pq': 'β', '_entry_map': 'Dict κ Val', '_counter': 'Counter',
               '_get_priority': 'Fun Int Int'},
-    'virtual': ['heap'], 'sentinels': ['_REMOVED'],
+    'virtual': ['heap'], 'sentinels': ['_REMOVED'], 'test_class': 'HeapPriorityQueue',
 }
 _BPQ = _cls_methods(BPQ, 'boltons.queueutils', [
     {'py': 'remove', 'name': 'remove', 'params': {'task': 'κ'}, 'result': 'None',
